@@ -108,7 +108,7 @@ def classes(case):
 
 
 def subchecks(ctx):
-    return [Sub("flip", pair_case(), prop, {"quick": 150, "thorough": 6000},
+    return [Sub("flip", pair_case(), prop, {"quick": 1200, "thorough": 6000},
                 nontrivial=nontrivial,
                 classes=classes,
                 rule="on-shell point and its joint sign flip; all a_mu functions, helpers, uncertainties and masses compared")]
